@@ -85,7 +85,7 @@ def main():
         out['suite_on_current_tree'] = t.stdout.strip().splitlines()[-1] if t.stdout.strip() else t.stderr[-200:]
         out['checks'] = {}
         for prop in out['props']:
-            e = dict(os.environ, VERIF_REPO=d, VERIF_SEED=a.seed, VERIF_REPLAY_DIR=os.path.join(d, '_replays'),
+            e = dict(os.environ, VERIF_REPO=d, VERIF_SEED=a.seed, VERIF_ROUNDS='1', VERIF_SHRINK_S='10', VERIF_REPLAY_DIR=os.path.join(d, '_replays'),
                      VERIF_EVIDENCE_DIR=os.path.join(d, '_evidence'))
             e.pop('VERIF_PINNED', None)
             t0 = time.time()
